@@ -43,9 +43,6 @@ func init() {
 	register(&Rule{ID: "E-RESULT-TYPES", Props: []string{"C18"}, Floor: 100,
 		Doc: "every value the evaluator converts to `any` has one of the JSON carrier types: bool, string, []any, map[string]any or one of the 14 numeric kinds; strings are never re-typed as json.Number",
 		Run: ruleEResultTypes})
-	register(&Rule{ID: "P-DOT-PROJECT", Props: []string{"C17", "C01"}, Floor: 1,
-		Doc: "in the selector cases of the Pratt loop a node is chained with a pipe only under the false edge of isProjectNode on the left node; on a projection the selector continues the projection (both the quoted and the unquoted identifier forms)",
-		Run: rulePDotProject})
 	register(&Rule{ID: "P-CASE-SIBLINGS", Props: []string{"C12", "C17", "C01"}, Floor: 2,
 		Doc: "AST nodes of one type that are built under the same token in different parser functions (infix form and prefix form of one construct) set the same fields",
 		Run: rulePCaseSiblings})
@@ -1212,82 +1209,6 @@ func ruleEResultTypes(p *Program, r *Reporter) {
 				}
 			}
 		}
-	}
-}
-
-// ---------------------------------------------------------------- P-DOT-PROJECT
-
-func rulePDotProject(p *Program, r *Reporter) {
-	pk := p.Parser
-	t := findPrecedence(p)
-	if t.why != "" {
-		r.Unknown(token.NoPos, "pratt loops", t.why)
-		return
-	}
-	n := 0
-	for _, pl := range findPrattLoops(p, t) {
-		sw := firstTokenSwitch(p, pl.loop.Body)
-		if sw == nil {
-			continue
-		}
-		for _, c := range sw.Body.List {
-			cc := c.(*ast.CaseClause)
-			isPipe := false
-			for _, e := range cc.List {
-				if tokenConstName(pk, e) == "PipeToken" {
-					isPipe = true
-				}
-			}
-			if isPipe || cc.List == nil {
-				continue
-			}
-			// find &PipeNode{Left: node ...} literals and whether they sit in the else of if isProjectNode(node)
-			var stack []ast.Node
-			ast.Inspect(&ast.BlockStmt{List: cc.Body}, func(nd ast.Node) bool {
-				if nd == nil {
-					stack = stack[:len(stack)-1]
-					return true
-				}
-				stack = append(stack, nd)
-				cl, ok := nd.(*ast.CompositeLit)
-				if !ok {
-					return true
-				}
-				if strings.TrimPrefix(typeShort(pk.TypesInfo.TypeOf(cl)), "parser.") != "PipeNode" {
-					return true
-				}
-				n++
-				key := fmt.Sprintf("%s selector pipe#%d", DeclName(pl.fd), n)
-				guarded := false
-				for i := len(stack) - 1; i > 0; i-- {
-					ifs, ok := stack[i-1].(*ast.IfStmt)
-					if !ok {
-						continue
-					}
-					if call, ok := ast.Unparen(ifs.Cond).(*ast.CallExpr); ok {
-						if id, ok := call.Fun.(*ast.Ident); ok && id.Name == "isProjectNode" && ifs.Else == stack[i] {
-							guarded = true
-						}
-					}
-					if u, ok := ast.Unparen(ifs.Cond).(*ast.UnaryExpr); ok && u.Op == token.NOT {
-						if call, ok := ast.Unparen(u.X).(*ast.CallExpr); ok {
-							if id, ok := call.Fun.(*ast.Ident); ok && id.Name == "isProjectNode" && ifs.Body == stack[i] {
-								guarded = true
-							}
-						}
-					}
-				}
-				if guarded {
-					r.OK(cl.Pos(), key, "a selector is piped only when the left node is not an open projection")
-				} else {
-					r.Bad(cl.Pos(), key, "a selector is attached with a pipe without testing isProjectNode(left): after a projection it is applied to the projected array instead of to each element")
-				}
-				return true
-			})
-		}
-	}
-	if n == 0 {
-		r.Unknown(token.NoPos, "selector pipes", "no PipeNode construction found in the selector cases of the Pratt loop")
 	}
 }
 
